@@ -19,6 +19,7 @@ func init() {
 		Jobs:    c02Jobs,
 		Oracle:  func(x *Exec, res *vsched.Result, job *Job) []Viol { return append(servedAfterExit(res.Events, "C02"), provenance(res.Events, "C02")...) },
 		Outcome: getOutcome,
+		Seq:     c02Seq,
 	})
 	registerProp(&Prop{ID: "C04", Level: "model_checking",
 		Rule: "stateless DFS over all schedules within the preemption bound of the racy pairs (overwrite|eviction, overwrite|Del, Set|Clear, overwrite|sweep, Del|Del, buffer-full drops), every execution ending with Close; " +
@@ -28,6 +29,7 @@ func init() {
 		Jobs:    c04Jobs,
 		Oracle:  func(x *Exec, res *vsched.Result, job *Job) []Viol { return append(exactlyOnce(res.Events, "C04"), servedAfterExit(res.Events, "C04")...) },
 		Outcome: getOutcome,
+		Seq:     c04Seq,
 	})
 }
 
@@ -217,6 +219,12 @@ func c02Jobs(tier string) []Job {
 		ttlSetup := []Op{setttl(1, 1000), {K: "wait"}, {K: "advance", N: 3000}}
 		add(tag+"sweep/reader", cfg, ttlSetup, bound, []Op{{K: "tick"}}, []Op{get(1), get(1)})
 		add(tag+"sweep/overwrite-reader", cfg, ttlSetup, bound, []Op{{K: "tick"}}, []Op{set(1), get(1)})
+		// engineered primary-hash collisions: operations on key 2 must never release key 1's value
+		coll := cfg
+		coll.KeyHash = "collide"
+		coll.MaxCost = 3
+		add(tag+"collide/del-other|reader", coll, resident, bound, []Op{del(2), get(1)}, []Op{get(1), get(1)})
+		add(tag+"collide/set-del-other|reader", coll, resident, bound, []Op{set(2), del(2)}, []Op{get(1), set(1)})
 		if tier == "thorough" {
 			add(tag+"sweep/overwrite+reader", cfg, ttlSetup, bound-1, []Op{{K: "tick"}}, []Op{set(1)}, []Op{get(1), get(1)})
 			add(tag+"3threads/overwrite+del+reader", cfg, resident, bound-1, []Op{set(1)}, []Op{del(1)}, []Op{get(1), get(1)})
@@ -263,4 +271,110 @@ func c04Jobs(tier string) []Job {
 		}
 	}
 	return jobs
+}
+
+// c02Seq: explicit-state search over single-client histories with every applier lag; after every
+// event the probe reads every key, so "no Get that starts after OnExit(v) returns v" is judged
+// in every reachable state, not only where the history happens to contain a Get.
+func c02Seq(tier string) []SeqJob {
+	var out []SeqJob
+	mk := func(name, hash string, keys []int, sb, depth int, secs float64) {
+		var alpha []Op
+		for _, k := range keys {
+			alpha = append(alpha, Op{K: "set", Key: k, Cost: 1}, Op{K: "del", Key: k}, Op{K: "setttl", Key: k, Cost: 1, TTL: 1000})
+		}
+		alpha = append(alpha, Op{K: "clear"}, Op{K: "advance", N: 2000}, Op{K: "sweep"})
+		spec := &SeqSpec{Cfg: Cfg{NumCounters: 16, MaxCost: 2, BufferItems: 2, SetBuf: sb, KeyHash: hash, TTLTick: 2, BucketSecs: 1}, MaxDepth: depth,
+			Alphabet: func(r *SeqRun) []Op { return alpha },
+			Oracle: func(r *SeqRun) []Viol {
+				return append(servedAfterExit(r.Events, "C02"), provenance(r.Events, "C02")...)
+			},
+			Probe: func(c seqCache, r *SeqRun) {
+				if allIdle(r.Post.ClientState) {
+					for _, k := range keys {
+						runOp(c, Op{K: "get", Key: k})
+					}
+				}
+			},
+		}
+		out = append(out, SeqJob{Name: name, Spec: spec, Seconds: secs})
+	}
+	if tier == "quick" {
+		mk("seq/keys1,257,2/setbuf2/depth5", "", []int{1, 257, 2}, 2, 5, 40)
+		mk("seq/collide/keys1,2/setbuf2/depth6", "collide", []int{1, 2}, 2, 6, 40)
+	} else {
+		mk("seq/keys1,257,2/setbuf2/depth7", "", []int{1, 257, 2}, 2, 7, 560)
+		mk("seq/keys1,257/setbuf1/depth8", "", []int{1, 257}, 1, 8, 560)
+		mk("seq/collide/keys1,2/setbuf2/depth8", "collide", []int{1, 2}, 2, 8, 560)
+	}
+	return out
+}
+
+// ----- C04, sequential part ---------------------------------------------------------------------------
+
+// c04SeqOracle: the exactly-once oracle on the full log, plus the state invariant that makes a
+// leak visible without waiting for Close: the values whose Set returned true and that have not
+// been passed to OnExit are exactly the values the cache still holds (stored entries and
+// buffered new items).
+func c04SeqOracle(r *SeqRun) []Viol {
+	out := exactlyOnce(r.Events, "C04")
+	out = append(out, servedAfterExit(r.Events, "C04")...)
+	owed := map[int64]bool{}
+	for _, e := range r.Events {
+		switch e.Kind {
+		case evSetRet:
+			if e.C == 1 {
+				owed[e.B] = true
+			}
+		case evOnExit:
+			delete(owed, e.A)
+		}
+	}
+	held := map[int64]bool{}
+	for _, e := range r.Post.Store {
+		held[e.Value] = true
+	}
+	for _, it := range r.Post.SetBufItems {
+		if it.Flag == 0 && !it.IsWait {
+			if v, ok := it.Value.(int64); ok {
+				held[v] = true
+			}
+		}
+	}
+	for v := range owed {
+		if !held[v] {
+			out = append(out, Viol{Key: "C04/accepted-value-vanished-without-onexit", What: fmt.Sprintf("value %d was accepted and never passed to OnExit, but the cache no longer holds it (neither stored nor buffered)", v)})
+		}
+	}
+	for v := range held {
+		if !owed[v] && v != 0 {
+			out = append(out, Viol{Key: "C04/released-value-still-held", What: fmt.Sprintf("value %d is still held by the cache although it was passed to OnExit or its Set returned false", v)})
+		}
+	}
+	return out
+}
+
+func c04Seq(tier string) []SeqJob {
+	var out []SeqJob
+	mk := func(name string, sb int, su string, depth int, secs float64) {
+		alpha := []Op{{K: "set", Key: 1, Cost: 1}, {K: "del", Key: 1}, {K: "set", Key: 257, Cost: 1}, {K: "setttl", Key: 1, Cost: 1, TTL: 1000}, {K: "set", Key: 2, Cost: 2},
+			{K: "get", Key: 1}, {K: "clear"}, {K: "close"}, {K: "advance", N: 3000}, {K: "sweep"}, {K: "drain"}}
+		spec := &SeqSpec{Cfg: Cfg{NumCounters: 16, MaxCost: 2, BufferItems: 2, SetBuf: sb, ShouldUpdate: su, TTLTick: 2, BucketSecs: 1, MapOrder: "rot"}, MaxDepth: depth,
+			Alphabet: func(r *SeqRun) []Op { return alpha },
+			Oracle:   c04SeqOracle,
+			Terminal: func(r *SeqRun) bool { return r.Post.IsClosed },
+		}
+		out = append(out, SeqJob{Name: name, Spec: spec, Seconds: secs})
+	}
+	if tier == "quick" {
+		mk("seq/setbuf1/depth5", 1, "", 5, 40)
+		mk("seq/setbuf2/depth5", 2, "", 5, 40)
+		mk("seq/setbuf2/shouldupdate-refuses-even/depth5", 2, "refuse-even", 5, 40)
+	} else {
+		mk("seq/setbuf1/depth8", 1, "", 8, 560)
+		mk("seq/setbuf2/depth7", 2, "", 7, 560)
+		mk("seq/setbuf1/shouldupdate-refuses-even/depth7", 1, "refuse-even", 7, 560)
+		mk("seq/setbuf2/shouldupdate-refuses-even/depth7", 2, "refuse-even", 7, 560)
+	}
+	return out
 }
